@@ -415,7 +415,7 @@ for k, d in _kinds:
        contract="incremental hash, delta form, kind %s: out.zobrist == self.zobrist ^ keys of exactly the (square, piece, colour) triples the rules change (mover off/on, captured piece, e.p. victim, promotion swap, castling rook)" % d)
     ob("C02.cache." + k, ["C03"], "chess-movegen", "kani_verif_c02::c02_cache_" + k, kind="complete", flags="full", timeout=1800, mem_gb=5, stubs=_MKSTUBS, functions=_MK,
        contract="incremental check/pin sets, kind %s, foreach-loop body: re-scan ranges over exactly the successor's pinner set; for an ARBITRARY member: out.checkers = leaper checkers of the successor + {s} iff nothing between, out.pinned = the single blocker (with C03.pin_lemma: == from-scratch spec of the successor)" % d)
-ob("C02.cache.loop2", ["C03", "C02"], "chess-movegen", "kani_verif_c02::c02_cache_loop2", tier="thorough", kind="bounded", bound="successor has <= 2 sliders aligned with the enemy king (loop skeleton)", flags="full", timeout=3600, mem_gb=8, stubs=_LK5 + ["Board::xor -> contract stub (C04.xor)"], functions=_MK,
+ob("C02.cache.loop2", ["C03", "C02"], "chess-movegen", "kani_verif_c02::c02_cache_loop2", tier="thorough", kind="bounded", bound="successor has <= 2 sliders aligned with the enemy king (loop skeleton)", flags="full", timeout=10800, mem_gb=8, stubs=_LK5 + ["Board::xor -> contract stub (C04.xor)"], functions=_MK,
    contract="real iterator, every move kind: out.checkers/out.pinned == from-scratch spec of the successor at every square; successor position and hash delta as well")
 ob("C02.valid_preserved", ["C02", "C03"], "chess-movegen", "kani_verif_c02::c02_valid_preserved", kind="complete", flags="func", timeout=2400, mem_gb=6,
    functions=["(spec only) valid(P) and legal(P, mv) => valid(apply(P, mv))"],
@@ -471,6 +471,10 @@ for st in ("nocheck", "check"):
 ob("C01.king.castle", ["C01"], "chess-movegen", _PC + "c01_king_castle", kind="complete", flags="func", timeout=2400, mem_gb=8, stubs=["chess_lookup::king_moves", "Board::is_legal_king_position -> contract stub weakened to the four consulted squares (C01.king_position)"],
    functions=["King::king_legals::<NO_CHECK> (castling part)"],
    contract="{one king each, <=16, rights consistent, kings not adjacent, not in check} both colours, all 16 rights values: castling move generated iff legal: right present, squares between king and rook empty, king square / transit square / destination not attacked")
+ob("C01.dispatch", ["C01"], "chess-movegen", _PC + "c01_dispatch", kind="complete", flags="full", timeout=1800, mem_gb=6,
+   stubs=["<T as PieceType>::pseudo_legals -> marker stubs (T = Pawn..Queen)", "check_mask::<C> -> marker stub", "King::king_legals::<C> -> marker stub", "BitBoard::pop -> one-shot abstraction"],
+   functions=["Board::collect_moves"],
+   contract="collect_moves(mask): 0 checkers: all six generators run with NO_CHECK; 1 checker: the five non-king generators and the king run with IN_CHECK; >= 2: only the king (IN_CHECK); each receives mask minus the mover's own squares. Observed through marker stubs one level below the generic trait methods (which Kani cannot stub), on boards with an unpinned piece of every kind")
 ob("C01.dispatch.lemma", ["C01"], "chess-movegen", _PC + "c01_double_check_lemma", kind="complete", flags="func", timeout=2400, mem_gb=5, part=(1, 4),
    functions=["(spec only) legality in double check"], contract="spec-only lemma: with >= 2 checkers no move of a piece other than the king is legal")
 ob("C01.check_mask", ["C01", "C07"], "chess-movegen", _PC + "c01_check_mask", kind="complete", flags="func", timeout=2400, mem_gb=6, stubs=["chess_lookup::between"],
@@ -484,8 +488,8 @@ ob("C01.cover", "C01", "chess-movegen", _PC + "c01_cover", kind="cover", flags="
    contract="vacuity guard: under the invariant there are positions with a legal move of a pinned rook, a legal en-passant capture, legal castling, and a pinned knight")
 PROPERTY_META["C01"] = dict(
     level="proof",
-    explanation="Each per-type generator function of the real code is verified against make-move-and-test-the-king legality (independent spec, validated on published perft counts) for ALL boards satisfying the representation invariant, both colours, any mask, as a foreach-loop proof: loop body for an ARBITRARY member (one-shot iterator; complete), loop ranges / skipped members have no legal move (complete), BitBoardIter contract (C18); king moves and castling against the attacked-square contract of is_legal_king_position; check_mask; is_legal against the iterator (bounded list). Dispatch in collect_moves (which per-type functions run for 0 / 1 / >= 2 checkers, with which IS_IN_CHECK constant) is by inspection of 20 lines — an attempt to run the real collect_moves restricted to double check exhausted memory (all twelve generator instances are symbolically executed); the supporting spec lemma 'in double check only king moves are legal' is machine-checked (C01.dispatch.lemma). The composition of loop bodies into whole loops is a meta-argument.",
-    assumptions=["dispatch in Board::collect_moves for 0 / 1 checkers (all six NO_CHECK; five IN_CHECK + king) is covered by inspection only (Kani cannot stub trait methods with const generics to observe the calls)",
+    explanation="Each per-type generator function of the real code is verified against make-move-and-test-the-king legality (independent spec, validated on published perft counts) for ALL boards satisfying the representation invariant, both colours, any mask, as a foreach-loop proof: loop body for an ARBITRARY member (one-shot iterator; complete), loop ranges / skipped members have no legal move (complete), BitBoardIter contract (C18); king moves and castling against the attacked-square contract of is_legal_king_position; check_mask; is_legal against the iterator (bounded list). Dispatch in collect_moves (which generators run for 0 / 1 / >= 2 checkers, with which IS_IN_CHECK constant and mask) is machine-checked through marker stubs one level below the generic trait methods (C01.dispatch), plus the spec lemma 'in double check only king moves are legal' (C01.dispatch.lemma). The composition of loop bodies into whole loops is a meta-argument.",
+    assumptions=["dispatch is observed indirectly (marker stubs for pseudo_legals / check_mask / king_legals) because Kani cannot stub generic functions in traits",
                  "foreach-loop composition is a meta-argument; real-iterator skeletons are checked in the thorough tier with <= 2 pieces (bounded)",
                  "chess_lookup accessors replaced by their contracts (C08.*, C09.*)",
                  "representation invariant is established/preserved by C06.*/C02.*/C03.* (induction over histories: meta-argument)"],
